@@ -324,60 +324,109 @@ func permutations(n int) [][]int {
 func c08PAData(m *Model, v *Verdict, rng *RNG) {
 	cname := types.PrincipalName{NameType: 1, NameString: []string{"testuser1"}}
 	realm := "TEST.GOKRB5"
+	type hint struct {
+		kind   int // 0 ETYPE-INFO2, 1 ETYPE-INFO, 2 PW-SALT
+		et     int32
+		salt   string // "" = the entry carries no salt
+		params []byte
+	}
+	other := types.PAData{PADataType: patype.PA_ENC_TIMESTAMP, PADataValue: []byte{1, 2, 3}}
+	pw := "pässw0rd"
+	memo := map[string]string{}
 	for _, et := range allEtypes {
-		saltI2, saltI, saltPW := "salt-from-info2", "salt-from-info", "salt-from-pw-salt"
+		otherEt := int32(18)
+		if et == 18 {
+			otherEt = 17
+		}
 		iter := uint32(3 + rng.Intn(40))
-		var params []byte
-		if defaultIter(et) != 0 {
-			params = []byte{byte(iter >> 24), byte(iter >> 16), byte(iter >> 8), byte(iter)}
-		}
-		i2, _ := asn1.Marshal(types.ETypeInfo2{types.ETypeInfo2Entry{EType: et, Salt: saltI2, S2KParams: params}})
-		i1, _ := asn1.Marshal(types.ETypeInfo{types.ETypeInfoEntry{EType: et, Salt: []byte(saltI)}})
-		hints := []types.PAData{
-			{PADataType: patype.PA_ETYPE_INFO2, PADataValue: i2},
-			{PADataType: patype.PA_ETYPE_INFO, PADataValue: i1},
-			{PADataType: patype.PA_PW_SALT, PADataValue: []byte(saltPW)},
-		}
-		other := types.PAData{PADataType: patype.PA_ENC_TIMESTAMP, PADataValue: []byte{1, 2, 3}}
-		pw := "pässw0rd"
-		for mask := 0; mask < 8; mask++ {
-			var idx []int
-			for i := 0; i < 3; i++ {
-				if mask&(1<<uint(i)) != 0 {
-					idx = append(idx, i)
+		// the variants of each hint: absent, or present naming the asked-for or another etype, with or
+		// without a salt, (ETYPE-INFO2) with or without s2kparams
+		i2s := []*hint{nil}
+		for _, e := range []int32{et, otherEt} {
+			for _, salt := range []string{"salt-from-info2", ""} {
+				i2s = append(i2s, &hint{kind: 0, et: e, salt: salt})
+				if defaultIter(e) != 0 {
+					i2s = append(i2s, &hint{kind: 0, et: e, salt: salt, params: []byte{byte(iter >> 24), byte(iter >> 16), byte(iter >> 8), byte(iter)}})
 				}
 			}
-			// expected by RFC precedence
-			salt, it := realm+"testuser1", defaultIter(et)
-			switch {
-			case mask&1 != 0:
-				salt = saltI2
-				if params != nil {
-					it = iter
-				}
-			case mask&2 != 0:
-				salt = saltI
-			case mask&4 != 0:
-				salt = saltPW
+		}
+		i1s := []*hint{nil}
+		for _, e := range []int32{et, otherEt} {
+			for _, salt := range []string{"salt-from-info", ""} {
+				i1s = append(i1s, &hint{kind: 1, et: e, salt: salt})
 			}
-			op := fmt.Sprintf("cr.s2k %d %s %s %s %d", et, XS(pw), XS(salt), charsTok(pw), it)
-			want := m.Ask(op)
-			for _, perm := range permutations(len(idx)) {
-				var pas types.PADataSequence
-				order := ""
-				for k, p := range perm {
-					if k == 1 {
-						pas = append(pas, other)
+		}
+		pss := []*hint{nil, {kind: 2, salt: "salt-from-pw-salt"}}
+		for _, h2 := range i2s {
+			for _, h1 := range i1s {
+				for _, hs := range pss {
+					var present []*hint
+					for _, h := range []*hint{h2, h1, hs} {
+						if h != nil {
+							present = append(present, h)
+						}
 					}
-					pas = append(pas, hints[idx[p]])
-					order += []string{"I2", "I", "S"}[idx[p]]
-				}
-				var key types.EncryptionKey
-				var err error
-				pan := Protect(func() { key, _, err = crypto.GetKeyFromPassword(pw, cname, realm, et, pas) })
-				v.Case(fmt.Sprintf("padata/%d/%s", et, order), "PA-data precedence "+order)
-				if pan != "" || err != nil || want != "ok "+X(key.KeyValue) {
-					v.Violate("failing-input", fmt.Sprintf("c08:padata:order=%s", order), "salt/parameters selected from the PA-data hints do not follow the RFC 4120 5.2.7.5 precedence", map[string]string{"et": itoa(et), "order": order, "op": op, "want": want, "go": fmt.Sprintf("%s err=%v %s", X(key.KeyValue), err, pan)})
+					// expected by the RFC 4120 5.2.7.5 precedence: everything comes from the hint that wins
+					useEt, salt, it := et, "", uint32(0)
+					var win *hint
+					if len(present) > 0 {
+						win = present[0] // present is in precedence order
+						salt = win.salt
+						if win.kind != 2 {
+							useEt = win.et
+						}
+					}
+					it = defaultIter(useEt)
+					if win != nil && win.params != nil {
+						it = iter
+					}
+					if salt == "" {
+						salt = realm + "testuser1"
+					}
+					op := fmt.Sprintf("cr.s2k %d %s %s %s %d", useEt, XS(pw), XS(salt), charsTok(pw), it)
+					want, seen := memo[op]
+					if !seen {
+						want = m.Ask(op)
+						memo[op] = want
+					}
+					desc := ""
+					for _, h := range present {
+						desc += fmt.Sprintf("%s(et=%v,salt=%v,params=%v)", []string{"I2", "I", "S"}[h.kind], h.et == et || h.kind == 2, h.salt != "", h.params != nil)
+					}
+					for _, perm := range permutations(len(present)) {
+						var pas types.PADataSequence
+						order := ""
+						for k, p := range perm {
+							if k == 1 {
+								pas = append(pas, other)
+							}
+							h := present[p]
+							var pa types.PAData
+							switch h.kind {
+							case 0:
+								b, _ := asn1.Marshal(types.ETypeInfo2{types.ETypeInfo2Entry{EType: h.et, Salt: h.salt, S2KParams: h.params}})
+								pa = types.PAData{PADataType: patype.PA_ETYPE_INFO2, PADataValue: b}
+							case 1:
+								b, _ := asn1.Marshal(types.ETypeInfo{types.ETypeInfoEntry{EType: h.et, Salt: []byte(h.salt)}})
+								pa = types.PAData{PADataType: patype.PA_ETYPE_INFO, PADataValue: b}
+							default:
+								pa = types.PAData{PADataType: patype.PA_PW_SALT, PADataValue: []byte(h.salt)}
+							}
+							pas = append(pas, pa)
+							order += []string{"I2", "I", "S"}[h.kind]
+						}
+						var key types.EncryptionKey
+						var err error
+						pan := Protect(func() { key, _, err = crypto.GetKeyFromPassword(pw, cname, realm, et, pas) })
+						v.Case(fmt.Sprintf("padata/%d/%s/%s", et, desc, order), "PA-data precedence "+order)
+						if pan != "" || err != nil || want != "ok "+X(key.KeyValue) {
+							sig := "c08:padata:order=" + order
+							if useEt != et || strings.Contains(desc, "et=false") {
+								sig = "c08:padata-etype:order=" + order
+							}
+							v.Violate("failing-input", sig, "salt / parameters / etype selected from the PA-data hints do not follow the RFC 4120 5.2.7.5 precedence", map[string]string{"et": itoa(et), "hints": desc, "order": order, "op": op, "want": want, "go": fmt.Sprintf("%s err=%v %s", X(key.KeyValue), err, pan)})
+						}
+					}
 				}
 			}
 		}
